@@ -186,6 +186,23 @@ Theorem c12_symlink_seen_through_refuted : forall matches skip,
 Proof. exact symlink_seen_through. Qed.
 Print Assumptions c12_symlink_seen_through_refuted.
 
+(* ---------------------------------------------------------------- what a listing leaves out *)
+
+(* Both listings report every entry of the directory except the symbolic links whose real path is the (resolved)
+   directory itself or one of its ancestors by whole components; nothing else is left out (patterns come afterwards,
+   c12_filter_exact_listing).  Consequence (finding ancestor-link-edit-unseen): adding or removing such a link is not
+   an edit of the observed tree. *)
+Theorem c12_observe_listing_exact : forall skip p i cs n,
+  In n (names (v_children (observe skip p (Dir i cs)))) <->
+  exists c, In (n, c) cs /\ dropped_link anc_repaired p c = false.
+Proof. exact observe_listing_exact. Qed.
+Print Assumptions c12_observe_listing_exact.
+
+Theorem c12_dropped_link_spec : forall p c, dropped_link anc_repaired p c = true <->
+  exists li rp t, c = Link li (Some rp) t /\ pip p rp = true.
+Proof. exact dropped_link_spec. Qed.
+Print Assumptions c12_dropped_link_spec.
+
 (* ---------------------------------------------------------------- the code before its repairs (inputs kept in the corpus) *)
 
 (* 9d17fc1: the ancestor test of getContents was a string-prefix test and hid a link to a sibling *)
@@ -210,6 +227,15 @@ Theorem c12_truncating_listing_refuted :
   observe false w_tree w_t_dangling = VNode (w_dir 10 100) [(w_l, VMissing); (w_a, VNode w_fa [])].
 Proof. exact truncating_listing_refuted. Qed.
 Print Assumptions c12_truncating_listing_refuted.
+
+(* d863e96: the ancestor test saw the path as spelled (relative: never a match) and the filtered listing had none *)
+Theorem c12_ancestor_links_unprotected_refuted :
+  anc_repaired w_rel_sub w_rp = false /\ anc_repaired w_abs_sub w_rp = true /\
+  names (v_children (observe_unprotected false w_abs_sub w_t_up)) = [w_up; w_a] /\
+  names (v_children (observe false w_abs_sub w_t_up)) = [w_a] /\
+  names (v_children (observe true w_abs_sub w_t_up)) = [w_a].
+Proof. exact ancestor_links_unprotected_refuted. Qed.
+Print Assumptions c12_ancestor_links_unprotected_refuted.
 
 (* ---------------------------------------------------------------- non-vacuity *)
 
